@@ -150,6 +150,9 @@ func ext۰math۰Float32frombits(fr *frame, args []value) value {
 }
 
 func ext۰math۰Abs(fr *frame, args []value) value {
+	if sx, ok := args[0].(sym); ok {
+		return fromTerm(types.Float64, tOp("bvand", 64, 0, sx.t, bvConst(^uint64(0)>>1, 64)))
+	}
 	return math.Abs(args[0].(float64))
 }
 
